@@ -6,7 +6,7 @@ from pyvc.sym import (VInt, VBool, VStr, VRef, VOpt, INT, BOOL, STR, REF, TOpt, 
 from contracts.common import add_common
 
 VERIFY = ["trees.treeoutput.export_tabs", "trees.treeoutput.export_format", "trees.treeoutput.brackets",
-          "trees.treeoutput.terminals"]
+          "trees.treeoutput.terminals", "trees.treeoutput.tigerxml_end"]
 TRUSTED = []
 ASSUMPTIONS = ["int = mathematical integer; str = SMT string",
                "an output stream is modelled as the text written to it so far (write / print(file=) append); encoding and "
@@ -181,6 +181,19 @@ def add_stream_writers(reg):
             text_of(S.final("stream")) == z3.Concat(W(S.old.terms(tree).n), z3.StringVal("\n")))},
         loops={0: dict(inv=lambda S: VBool(text_of(S.stream) == W(toint(S.it))))},
         result_type=None))
+
+    # ---- the suffix of a TIGER-XML file (also what ends each part of a split output, C17): body and corpus are closed, in
+    # this order, with nothing but white space around them (stated up to white space: an extra newline is not a defect)
+    def closes(S, stream, params, result):
+        ws = z3.Star(z3.Union(z3.Re(" "), z3.Re("\n"), z3.Re("\t"), z3.Re("\r")))
+        w = z3.String(fresh_name("xw"))
+        return VBool(z3.Exists([w], z3.And(
+            text_of(S.final("stream")) == z3.Concat(text_of(stream), w),
+            z3.InRe(w, z3.Concat(ws, z3.Re("</body>"), ws, z3.Re("</corpus>"), ws)))))
+
+    reg.add(Contract(
+        target="trees.treeoutput.tigerxml_end", prop="C02", args=dict(stream=STREAM), params={},
+        ensures={"closes_body_then_corpus": closes}, result_type=None))
 
 
 def replay_model(rec, repo):
